@@ -66,6 +66,16 @@ def ir? (d ns v : String) : Option (ImpulseResponse Cx) := do
   if v.length ≠ d.length * ns then none
   else some ⟨d, rows ns d.length v, ns⟩
 
+/-- one operation of a pair history: `set:f:c:u` | `mod:s:x` | `demod:s:y` | `eq:delays:ns:vals:data`
+    (`s` = the implementation's `math.sqrt(power_scale)` at that moment) -/
+def pairOp? (t : String) : Option (PairOp Cx × Float) :=
+  match t.splitOn ":" with
+  | ["set", f, c, u] => do some (.setParams (← f.toInt?) (← c.toInt?) (← optInt? u), 1.0)
+  | ["mod", s, x] => do some (.modulate (← cxList? x), ← parseFloat? s)
+  | ["demod", s, y] => do some (.demodulate (← cxList? y), ← parseFloat? s)
+  | ["eq", d, ns, v, data] => do some (.equalize (← cxList? data) (← ir? d ns v), 1.0)
+  | _ => none
+
 def handle : List String → String
   | ["params", f, c, u] =>
     match f.toInt?, c.toInt?, optInt? u with
@@ -79,6 +89,16 @@ def handle : List String → String
         let r := step acc.1 op
         (r.1, acc.2 ++ (match r.2 with | none => "0" | some _ => "1"))) (p0, "")
       s!"{p.fft} {p.cp} {p.used} {flags}"
+    | _, _ => "bad-op"
+  | ["pair", f, c, u, ops] =>      -- history on ONE OFDM object with ONE long-lived equaliser
+    match params? f c u, (fields ops ";").mapM pairOp? with
+    | some p0, some ops =>
+      let (st, outs) := ops.foldl (fun (acc : Pair × List String) os =>
+        let r := stepPair fftF ifftF (fun _ => ⟨os.2, 0⟩) acc.1 os.1
+        (r.1, acc.2 ++ [match os.1 with
+          | .setParams .. => (match r.2 with | .ok _ => "ok" | .error e => "error:" ++ toString e)
+          | _ => showE showCx r.2])) (freshPair p0, [])
+      "|".intercalate outs ++ s!"|{st.ofdm.fft} {st.ofdm.cp} {st.ofdm.used}"
     | _, _ => "bad-op"
   | ["idx", f, u] =>
     match f.toNat?, u.toNat? with
